@@ -149,7 +149,8 @@ impl Prop for C17 {
                     1 => (Grammar::Lib, libgen::generate(t), "libgen"),
                     k => {
                         let cfg = if small { svgen::Cfg { max_elements: 1, max_items: 3, adversarial_names: true } } else { svgen::Cfg::default() };
-                        let p = svgen::generate(t, &cfg);
+                        // in the small band every second program is centred on one rarely reached family
+                        let p = if small && t.flip() { svgen::generate_focus(t) } else { svgen::generate(t, &cfg) };
                         let mut f = Feats::default();
                         let mut text = p.render(t, &TriviaCfg::full(), &mut f);
                         if k == 4 {
